@@ -163,8 +163,23 @@ func slashOne(r *sim.Rng, n *sim.FNode, addr []byte, fixedChain, fixedPct uint64
 		return
 	}
 	v := cands[r.Intn(len(cands))]
+	// often: a validator that is ALREADY unstaking, slashed hard enough to fall below the minimum stake (the forced unstaking of
+	// a validator below the minimum must leave one that is already on its way out alone: one marker, one finish height)
+	belowMin := false
+	if random && r.Chance(40) {
+		var un []*fsm.Validator
+		for _, c := range cands {
+			if c.UnstakingHeight != 0 {
+				un = append(un, c)
+			}
+		}
+		if len(un) > 0 {
+			v, belowMin = un[r.Intn(len(un))], true
+			st.TxOutcome["slash-of-unstaking-validator"]++
+		}
+	}
 	chain := v.Committees[r.Intn(len(v.Committees))]
-	if r.Chance(8) {
+	if r.Chance(8) && !belowMin {
 		chain = 777
 	}
 	if random && r.Chance(40) {
@@ -172,6 +187,9 @@ func slashOne(r *sim.Rng, n *sim.FNode, addr []byte, fixedChain, fixedPct uint64
 		ownTracker = map[string]map[uint64]uint64{}
 	}
 	percent := r.Pick(0, 1, 5, 10, 14, 15, 16, 50, 60, 99, 100, 150)
+	if belowMin {
+		percent = r.Pick(50, 60, 99, 10)
+	}
 	if !random {
 		found := false
 		for _, c := range cands {
@@ -285,6 +303,7 @@ func txMode(r *sim.Rng, nStates, perState int, cw *sim.CaseWriter, outDir string
 				panic(e)
 			}
 			trackerBefore := n.FSM.VerifSlashTrackerDigest()
+			paramsBefore := sim.ParamsView(n.FSM)
 			_, _, _, _, _, eventsBefore := n.FSM.VerifSideState()
 			res := new(lib.ApplyBlockResults)
 			if aerr := n.FSM.ApplyTransactions(context.Background(), [][]byte{tx}, res, false); aerr != nil {
@@ -301,6 +320,11 @@ func txMode(r *sim.Rng, nStates, perState int, cw *sim.CaseWriter, outDir string
 				if after := n.FSM.VerifSlashTrackerDigest(); after != trackerBefore || eventsAfter > eventsBefore {
 					sim.Direct(outDir, map[string]any{"finding": "failed-transaction-left-trace", "kind": "slash tracker or pending events differ after a failed transaction",
 						"tracker_before": trackerBefore, "tracker_after": after, "events_before": eventsBefore, "events_after": eventsAfter})
+				}
+				// the parameters as the state machine reports them (through whatever caches stand in front of the store)
+				if after := sim.ParamsView(n.FSM); after != paramsBefore {
+					sim.Direct(outDir, map[string]any{"finding": "failed-transaction-left-trace", "kind": "the parameters reported by the state machine differ after a failed transaction",
+						"params_before": paramsBefore, "params_after": after, "tx": sim.Hex(tx)})
 				}
 			}
 			post, e := sim.ScanState(n.FSM)
